@@ -61,6 +61,17 @@ def main():
     shutil.rmtree(os.path.join(mdir, "demo", "target"), ignore_errors=True)
     confirmed = res["clean_demo_rc"] == 0 and res["tests_ok"] and res["mutant_demo_rc"] != 0
     res["confirmed"] = confirmed
+    dst = os.path.join(VERIF, "seeded", sid)
+    shutil.rmtree(dst, ignore_errors=True)
+    os.makedirs(dst)
+    shutil.copy(patch, os.path.join(dst, "patch.diff"))
+    if os.path.isdir(os.path.join(mdir, "demo")):
+        shutil.copytree(os.path.join(mdir, "demo"), os.path.join(dst, "demo"), ignore=shutil.ignore_patterns("target"))
+    # a later fix: commit in /repo may have moved the context: rebase the stored patch onto /repo HEAD first
+    rc, out = sh([os.path.join(VERIF, "tools", "rebase_seeded.py"), dst])
+    if out.strip():
+        print("  ", out.strip()[-300:])
+    patch = os.path.join(dst, "patch.diff")
     caught = {}
     for c in checks:
         rc, out = sh([os.path.join(VERIF, "tools", "with_mutant.sh"), patch, c], cwd=VERIF)
@@ -73,12 +84,6 @@ def main():
                 break
         caught[c] = {"rc": rc, "violations": len(viol), "first": first,
                      "summary": next((l for l in reversed(lines) if l.startswith(c + " ")), "")[:200]}
-    dst = os.path.join(VERIF, "seeded", sid)
-    shutil.rmtree(dst, ignore_errors=True)
-    os.makedirs(dst)
-    shutil.copy(patch, os.path.join(dst, "patch.diff"))
-    if os.path.isdir(os.path.join(mdir, "demo")):
-        shutil.copytree(os.path.join(mdir, "demo"), os.path.join(dst, "demo"), ignore=shutil.ignore_patterns("target"))
     meta["confirmation"] = res
     meta["checks_run"] = caught
     meta["caught_by"] = [c for c, r in caught.items() if r["rc"] == 1 and r["violations"] > 0]
